@@ -41,6 +41,8 @@ def run(ctx):
     ctx.do(rule_commit_last)
     ctx.do(rule_registry_class_attr)
     ctx.do(rule_input_parsers_guarded)
+    from .hidden_state import rule_no_hidden_state
+    ctx.do(rule_no_hidden_state, "C17.history-independence")
 
 
 def rule_wrapper(ctx):
